@@ -9,20 +9,12 @@ for prop in "$@"; do
     [ -f $d/patch.diff ] || continue
     k=$(basename $d)
     git -C $wt checkout -q -- . ; git -C $wt clean -fdq
-    pkgdir=$(head -3 $d/demo_test.go | grep -o '[a-z][a-z0-9_/]*/[a-z0-9_/]*\|thrift\|proto' | head -1)
-    # package directory from the demo's package clause + comment
-    pkgdir=$(python3 - "$d/demo_test.go" <<'PY'
-import re,sys
-t=open(sys.argv[1]).read()
-m=re.search(r'(?:place[d]? in|directory|dir(?:ectory)?:?|package directory:?|in)\s+`?([\w/.-]*(?:thrift|proto|conv|internal)[\w/.-]*)`?', t.split('package ')[0])
-print(m.group(1).strip('./').rstrip('/') if m else '')
-PY
-)
+    pkgdir=$(head -1 $d/demo_test.go | grep -oE '(thrift|proto|conv|internal)(/[a-z0-9_]+)*' | head -1)
     res="{\"prop\":\"$prop\",\"k\":\"$k\",\"pkgdir\":\"$pkgdir\""
     if ! git -C $wt apply --check $d/patch.diff 2>/dev/null; then echo "$res,\"applies\":false}" > $d/confirm.json; continue; fi
     git -C $wt apply $d/patch.diff
     (cd $wt && go build ./... >/dev/null 2>&1); b=$?
-    (cd $wt && go test -vet=off -count=1 ./... > $d/suite_with_patch.log 2>&1); s=$?
+    if [ -f $d/suite_ok ]; then s=0; else (cd $wt && go test -vet=off -count=1 ./... > $d/suite_with_patch.log 2>&1); s=$?; [ $s = 0 ] && touch $d/suite_ok; fi
     cp $d/demo_test.go $wt/$pkgdir/zz_seed_demo_test.go
     (cd $wt && timeout 300 go test -vet=off -count=1 -timeout 120s -run . ./$pkgdir > $d/demo_with_patch.log 2>&1); dw=$?
     git -C $wt checkout -q -- .
